@@ -167,6 +167,42 @@ func checkC19(r *Report, known []Finding) {
 		// (4) branch dispatch
 		isBD := nfa.IsBranchDispatchPattern(re)
 		cases = append(cases, cs{p: p, searcher: "BranchDispatcher", op: "predicate", req: "re-bd is - " + wire, got: fmt.Sprint(isBD)})
+		// (5) first-byte rejection filter
+		fbGo := "nil"
+		fb := nfa.ExtractFirstBytes(re)
+		if fb != nil {
+			var tbl [32]byte
+			for b := 0; b < 256; b++ {
+				if fb.Contains(byte(b)) {
+					tbl[b/8] |= 1 << (b % 8)
+				}
+			}
+			fbGo = fmt.Sprintf("%d/%v/%s", fb.Count(), fb.IsComplete(), hexOf(tbl[:]))
+		}
+		cases = append(cases, cs{p: p, searcher: "FirstBytes", op: "predicate", req: "re-fb " + wire, got: fbGo})
+		if fb != nil && fb.IsComplete() {
+			r.Dist["accepted:FirstBytes(complete)"]++
+			// the property itself on the real code: a non-empty match at offset 0 starts with a byte of the set
+			anch, err := regexp.Compile(`^(?:` + p + `)`)
+			if err == nil {
+				fbHays := append([][]byte(nil), hays...)
+				for _, x := range []string{"k", "K", "\u212a", "s", "S", "\u017f", "é", "É", "\n", "ß", "世", "0", "_", " "} {
+					fbHays = append(fbHays, []byte(x), []byte(x+"a"), []byte(x+"1"))
+				}
+				for _, h := range fbHays {
+					if len(h) == 0 {
+						continue
+					}
+					loc := anch.FindIndex(h)
+					want := "in-set-or-no-match"
+					got := want
+					if loc != nil && loc[1] > 0 && !fb.Contains(h[0]) {
+						got = fmt.Sprintf("match [0,%d] starts with byte %#x which is not in the complete set", loc[1], h[0])
+					}
+					cases = append(cases, cs{p: p, searcher: "FirstBytes", op: "filter", h: h, got: got, prop: true, want: want})
+				}
+			}
+		}
 		r.Case(p+"\x00predicates", isCC || isComp || info != nil || isBD)
 		if isCC {
 			r.Dist["accepted:CharClassSearcher"]++
